@@ -838,6 +838,8 @@ class Interp:
         """closure: a closure Struct, or a Cell holding one (FnMut state persists across calls through the Cell)."""
         cell = closure if isinstance(closure, Cell) else Cell(closure)
         closure = cell.v
+        if isinstance(closure, Struct) and closure.name == "fn-item":
+            return self.do_call(closure.fields[0], list(args))
         if not isinstance(closure, Struct) or closure.name not in self.p.closures:
             raise Unsupported("closure %r" % (closure,))
         f = self.p.closures[closure.name]
@@ -934,6 +936,8 @@ class Interp:
 
     def eval_const(self, text):
         t = text.strip()
+        if t.startswith("fn-item "):
+            return Struct("fn-item", [t[len("fn-item "):]])
         if t in ("true", "false"):
             return t == "true"
         if t == "()":
@@ -949,10 +953,13 @@ class Interp:
         if t.startswith("ZeroSized:"):
             name = t[len("ZeroSized:"):].strip()
             return Struct(name, [])
-        if t.endswith("::EPSILON") and "f64" in t:
-            return self.dom.const(2.220446049250313e-16)
-        if t.endswith("::INFINITY") and "f64" in t:
-            return self.dom.const(float("inf"))
+        if "f64" in t:
+            fc = {"EPSILON": 2.220446049250313e-16, "INFINITY": float("inf"), "NEG_INFINITY": float("-inf"),
+                  "MAX": 1.7976931348623157e308, "MIN": -1.7976931348623157e308, "MIN_POSITIVE": 2.2250738585072014e-308,
+                  "NAN": float("nan")}
+            nm = t.split("::")[-1]
+            if nm in fc:
+                return self.dom.const(fc[nm])
         last = t.split("::")[-1]
         if "Ordering" in t and last in ("Less", "Equal", "Greater"):
             return EnumVal("Ordering", last, {"Less": -1, "Equal": 0, "Greater": 1}[last])
